@@ -643,16 +643,50 @@ theorem prepR_rest (r : Nat) (it : TraceItem) : ∀ x ∈ (prepR r it).1, x.type
     · exact flushL_rest _ x hx
     · simp at hx
 
-/-- the `TraceItem` of a hook call (`Player.stepTrace`) -/
+/-- the `TraceItem` of a hook call without the "top frame is a loop" bit -/
 def recItem (v f : Event) (st : List Frame) : TraceItem :=
   { ev := v, on := f.on, off := f.off, insideLoop := insideLoop st, insideJump := insideJump st }
+
+/-- the `TraceItem` of a hook call as `Player.stepTrace` records it -/
+def recItemT (v f : Event) (st : List Frame) : TraceItem :=
+  { recItem v f st with topLoop := topIsLoop st }
+
+/-- the record of a step as `Player.stepTrace` hands it to the hook -/
+def itemOfRecT (r : Rec) : Option TraceItem :=
+  match r.1 with
+  | .hook v f => some (recItemT v f r.2)
+  | _ => none
+
+/-- `get_stack_type() == LOOP` is only looked at by the writer of a drum routine, at a note (the fix of
+D25 on main: the note that ends a routine may not stand inside a loop) -/
+theorem hook_topLoop {song : Song} {d : DataInfo} {n : Nat} {c : Conv} {w : WState} {it : TraceItem} (b : Bool)
+    (h : w.inDrum = false ∨ it.ev.type ≠ ev_NOTE) :
+    hook song d (n + 1) c w { it with topLoop := b } = hook song d (n + 1) c w it := by
+  rw [hook_succ_eq, hook_succ_eq]
+  have hp : prep w { it with topLoop := b } = prep w it := rfl
+  show (if it.insideLoop ∨ it.insideJump then _ else hookVis song d n c (prep w { it with topLoop := b }) { it with topLoop := b }) = _
+  rw [hp]
+  by_cases hsh : it.insideLoop ∨ it.insideJump
+  · rw [if_pos hsh, if_pos hsh]
+  · rw [if_neg hsh, if_neg hsh]
+    by_cases t : it.ev.type = ev_NOTE
+    · have hi : w.inDrum = false := by
+        rcases h with h | h
+        · exact h
+        · exact absurd t h
+      have hi' : (prep w it).inDrum = false := by rw [prep_eq]; exact hi
+      rw [hookVis_note (it := { it with topLoop := b }) t, hookVis_note t]
+      simp only [hi', Bool.false_eq_true, if_false]
+    · unfold hookVis
+      have t' : ¬ ({ it with topLoop := b } : TraceItem).ev.type = ev_NOTE := t
+      simp only [if_neg t, if_neg t']
 
 section
 variable (song : Song) (root : List Event)
 
 theorem stepTrace_nonroot (s : PState) {c' : Core} {o : Out} (h : coreStep song root s.core = .ok (c', o))
     (ho : isRoot o = false) :
-    ∃ a', stepTrace song root false s = .ok (⟨c', a'⟩, (itemOfRec (o, hookStack s.core c' o)).map some) ∧
+    ∃ a', stepTrace song root false s = .ok (⟨c', a'⟩, (itemOfRecT (o, hookStack s.core c' o)).map some) ∧
       a'.enabled = s.acc.enabled ∧ T a' = T s.acc + o.fetched.on + o.fetched.off ∧
       a'.loopPlayTime = (if isSegnoHook o then (T s.acc : Int) else s.acc.loopPlayTime) := by
   obtain ⟨a', em, hacc, hen, hpt, hon, hoff, hlp⟩ := accStep_nonroot false s.acc s.core.position c' o ho
@@ -664,7 +698,7 @@ theorem stepTrace_nonroot (s : PState) {c' : Core} {o : Out} (h : coreStep song 
       simp only [accStep] at hacc
       exact (Prod.mk.inj (Prod.mk.inj hacc).2).2.symm
     subst hem
-    simp [stepTrace, h, hacc, itemOfRec]
+    simp [stepTrace, h, hacc, itemOfRecT]
   | hook v f =>
     have hem : em = .event v := by
       simp only [accStep] at hacc
@@ -674,7 +708,7 @@ theorem stepTrace_nonroot (s : PState) {c' : Core} {o : Out} (h : coreStep song 
     subst hem
     have e1 : a'.onTime = f.on := hon
     have e2 : a'.offTime = f.off := hoff
-    simp [stepTrace, h, hacc, itemOfRec, e1, e2]
+    simp [stepTrace, h, hacc, itemOfRecT, recItemT, recItem, e1, e2]
 
 theorem visItems_cons_ret (f : Event) (st : List Frame) (rs : List Rec) : visItems ((.ret f, st) :: rs) = visItems rs := by
   have : (Out.ret f, st) :: rs = [(Out.ret f, st)] ++ rs := rfl
@@ -739,7 +773,7 @@ theorem run_emits {d : DataInfo} (hpc : PlatformClean d) (fuel : Nat) :
           cases o with
           | rootEnd f => simp [isRoot] at ho
           | ret f =>
-            simp only [itemOfRec, Option.map_none] at h
+            simp only [itemOfRecT, Option.map_none] at h
             obtain ⟨m, c1, w1, a1, ms, hm, he, hout, hws1, htid, hind, hdr, hmono, hinv1, hen1, htime, hrun⟩ :=
               run_emits hpc fuel k c1' c2 rs' h2 hno' (by rw [visItems_cons_ret] at hsim; exact hsim)
                 steps c w a' cF wF L P (hen'.trans hen) hws (by rw [visItems_cons_ret] at hin; exact hin) hinv h
@@ -748,21 +782,36 @@ theorem run_emits {d : DataInfo} (hpc : PlatformClean d) (fuel : Nat) :
             · rw [visItems_cons_ret]; exact hdr
             · rw [htf]; exact htime
           | hook v f =>
+            obtain ⟨itR, hitR⟩ : ∃ itR : TraceItem, itR = recItemT v f (hookStack c0 c1' (.hook v f)) := ⟨_, rfl⟩
             obtain ⟨it, hit⟩ : ∃ it : TraceItem, it = recItem v f (hookStack c0 c1' (.hook v f)) := ⟨_, rfl⟩
-            have hio : itemOfRec (Out.hook v f, hookStack c0 c1' (.hook v f)) = some it := by rw [hit]; rfl
+            have hrel : itR = { it with topLoop := topIsLoop (hookStack c0 c1' (.hook v f)) } := by rw [hitR, hit]; rfl
+            have hio : itemOfRecT (Out.hook v f, hookStack c0 c1' (.hook v f)) = some itR := by rw [hitR]; rfl
             rw [hio] at h
             simp only [Option.map_some] at h
-            cases hh : hook song d fuel c w it with
-            | error x => rw [hh] at h; simp only at h; split at h <;> cases h
+            cases hhR : hook song d fuel c w itR with
+            | error x => rw [hhR] at h; simp only at h; split at h <;> cases h
             | ok r =>
               obtain ⟨c', w'⟩ := r
-              rw [hh] at h
+              rw [hhR] at h
               simp only at h
               cases fuel with
-              | zero => simp [hook] at hh
+              | zero => simp [hook] at hhR
               | succ n =>
                 by_cases hvis : vis (hookStack c0 c1' (.hook v f)) = true
                 · -- shown
+                  have hnote : w.inDrum = false ∨ it.ev.type ≠ ev_NOTE := by
+                    rcases hin with hin | hin
+                    · exact .inl hin
+                    · right
+                      refine hin it ?_
+                      rw [visItems_cons_hook, if_pos hvis]
+                      have : it = tItem v f := by
+                        rw [hit]; unfold vis at hvis
+                        simp only [Bool.and_eq_true, Bool.not_eq_true'] at hvis
+                        simp [recItem, tItem, hvis.1, hvis.2]
+                      rw [this]; simp
+                  have hh : hook song d (n + 1) c w it = .ok (c', w') := by
+                    rw [← hhR, hrel]; exact (hook_topLoop _ hnote).symm
                   have hsh : ¬ (it.insideLoop ∨ it.insideJump) := by
                     rw [hit]; unfold vis at hvis
                     simp only [Bool.and_eq_true, Bool.not_eq_true'] at hvis
@@ -815,11 +864,11 @@ theorem run_emits {d : DataInfo} (hpc : PlatformClean d) (fuel : Nat) :
                   rw [htf]; exact htime
                 · -- hidden
                   have hvf : vis (hookStack c0 c1' (.hook v f)) = false := by simpa using hvis
-                  have hsh : it.insideLoop ∨ it.insideJump := by
-                    rw [hit]; unfold vis at hvf
+                  have hsh : itR.insideLoop ∨ itR.insideJump := by
+                    rw [hitR]; unfold vis at hvf
                     simp only [Bool.and_eq_false_iff, Bool.not_eq_false'] at hvf
-                    simpa [recItem] using hvf
-                  obtain ⟨rfl, rfl⟩ := hook_hidden hsh hh
+                    simpa [recItemT, recItem] using hvf
+                  obtain ⟨rfl, rfl⟩ := hook_hidden hsh hhR
                   have hcons : visItems ((Out.hook v f, hookStack c0 c1' (.hook v f)) :: rs') = visItems rs' := by
                     rw [visItems_cons_hook, hvf]; rfl
                   rw [hcons] at hsim hin ⊢
@@ -951,9 +1000,9 @@ theorem writer_routine {d : DataInfo} (hpc : PlatformClean d) (hne : SongNoEnd s
     simp only [runWriter] at hrun
     rw [if_neg (by simpa using hdis), hst] at hrun
     obtain ⟨it, hit⟩ : ∃ it : TraceItem, it = tItem note note := ⟨_, rfl⟩
-    have hio : itemOfRec (Out.hook note note, hookStack ⟨.root, (flattenL fpre).length, []⟩
+    have hio : itemOfRecT (Out.hook note note, hookStack ⟨.root, (flattenL fpre).length, []⟩
         ⟨.root, (flattenL fpre).length + 1, []⟩ (.hook note note)) = some it := by
-      rw [hit]; simp [itemOfRec, hookStack, hkind, insideLoop, insideJump]
+      rw [hit]; simp [itemOfRecT, recItemT, recItem, hookStack, hkind, insideLoop, insideJump, topIsLoop]
     rw [hio] at hrun
     simp only [Option.map_some] at hrun
     cases hh : hook song d fuel c1 w1 it with
@@ -971,8 +1020,9 @@ theorem writer_routine {d : DataInfo} (hpc : PlatformClean d) (hne : SongNoEnd s
         have ht : it.ev.type = ev_NOTE := by rw [hit]; exact hnote
         rw [hookVis_note ht] at hh'
         have hpar : it.ev.param = note.param := by rw [hit]
+        have htl : it.topLoop = false := by rw [hit]
         have hden : ¬ (w1.drumEnabled = true) := by rw [hdr1]; simp
-        simp only [hden, hind1, if_true, hpar] at hh'
+        simp only [hden, hind1, if_true, hpar, htl] at hh'
         have h1 : ¬ note.param < 0 := by omega
         have h2 : ¬ note.param > 255 := by omega
         simp only [Bool.false_eq_true, if_false, h1, h2, Except.ok.injEq, Prod.mk.injEq] at hh'
